@@ -102,6 +102,8 @@ Section Proofs.
   Notation messages_one := (messages_one cel_eval).
   Notation failures_from := (failures_from cel_eval).
   Notation failures := (failures cel_eval).
+  Notation verdict := (verdict cel_compile cel_eval).
+  Notation run_history := (run_history cel_compile cel_eval).
 
   Lemma leaf_prober_wf l : wf_prober (leaf_prober l).
   Proof. destruct l; intros o; apply single_msg_wf. Qed.
@@ -278,6 +280,19 @@ Section Proofs.
     split; intros H q Hq; apply contribution_nil; auto.
   Qed.
 
+  (** The same as a boolean equation: the success flag is the conjunction, over the
+      ObjectSetProbes that select the object, of "the probe passes". *)
+  Theorem probe_conj_b qs p o :
+    parse qs = inr p -> fst (p o) = forallb (fun q => implb (selects q o) (passes_one q o)) qs.
+  Proof.
+    intros Hp. destruct (forallb _ qs) eqn:E.
+    - apply (probe_conj _ _ o Hp). rewrite forallb_forall in E. intros q Hq Hs. specialize (E q Hq).
+      now rewrite Hs in E.
+    - destruct (fst (p o)) eqn:Ef; [|reflexivity]. rewrite (probe_conj _ _ o Hp) in Ef.
+      assert (forallb (fun q => implb (selects q o) (passes_one q o)) qs = true); [|congruence].
+      apply forallb_forall. intros q Hq. destruct (selects q o) eqn:Es; [|reflexivity]. cbn. now apply Ef.
+  Qed.
+
   (** Objects that no probe selects pass, without messages. *)
   Theorem unselected_pass qs p o :
     parse qs = inr p -> (forall q, In q qs -> selects q o = false) -> p o = (true, []).
@@ -416,6 +431,60 @@ Section Proofs.
     intros Hp Ho. rewrite (parse_inr _ _ Hp). cbn. unfold contribution, passes_one, messages_one. cbn.
     rewrite Ho. cbn. rewrite andb_false_r. reflexivity.
   Qed.
+
+  (** ** The callers: what the phase reconciler records, and independence of earlier passes *)
+
+  (** An object of the phase that was found is recorded as failed iff some ObjectSetProbe selects
+      it and does not pass (i.e. iff the success flag is false: the messages play no role); an
+      object that was not found is always recorded; the ProbingResult is zero iff every object
+      was found and passes. *)
+  Definition expected_record (qs : list osp) (o : option json) : bool :=
+    match o with
+    | Some o => existsb (fun q => selects q o && negb (passes_one q o)) qs
+    | None => true
+    end.
+
+  Theorem recorded_iff_fails qs p objs :
+    parse qs = inr p -> record_phase p objs = map (expected_record qs) objs.
+  Proof.
+    intros Hp. unfold record_phase. apply map_ext. intros [o|]; [|reflexivity]. cbn.
+    rewrite (probe_conj_b _ _ o Hp).
+    clear Hp. induction qs as [|q qs' IH]; cbn; [reflexivity|]. rewrite negb_andb, IH. f_equal.
+    destruct (selects q o), (passes_one q o); reflexivity.
+  Qed.
+
+  Theorem result_zero_iff qs p objs :
+    parse qs = inr p ->
+    (result_is_zero (record_phase p objs) = true <-> forall x, In x objs -> exists o, x = Some o /\ fst (p o) = true).
+  Proof.
+    intros _. unfold result_is_zero, record_phase. rewrite negb_true_iff. split.
+    - intros H x Hx. destruct x as [o|].
+      + exists o. split; [reflexivity|]. destruct (fst (p o)) eqn:E; [reflexivity|]. exfalso.
+        assert (existsb (fun b : bool => b) (map (record_one p) objs) = true); [|congruence].
+        apply existsb_exists. exists true. split; [|reflexivity]. apply in_map_iff. exists (Some o). cbn. now rewrite E.
+      + exfalso. assert (existsb (fun b : bool => b) (map (record_one p) objs) = true); [|congruence].
+        apply existsb_exists. exists true. split; [|reflexivity]. apply in_map_iff. now exists None.
+    - intros H. destruct (existsb _ _) eqn:E; [|reflexivity]. exfalso.
+      apply existsb_exists in E. destruct E as (b & Hb & ->). apply in_map_iff in Hb.
+      destruct Hb as (x & Hx & Hin). destruct (H x Hin) as (o & -> & Ho). cbn in Hx. rewrite Ho in Hx. discriminate.
+  Qed.
+
+  (** Purity across calls: the verdict of a pass is a function of the probe list of the
+      ObjectSet reconciled in that pass and of the objects alone; whatever passes came before
+      (for other ObjectSets, or for an earlier ObjectSet of the same name) or come after do not
+      matter. Immediate in the model, which keeps no state; the history stage of the check ties
+      one long-lived controller instance of the implementation to it. *)
+  Theorem history_independent pre call post :
+    nth_error (run_history (pre ++ call :: post)) (List.length pre) = Some (verdict call).
+  Proof.
+    unfold run_history. rewrite map_app. cbn. rewrite nth_error_app2; rewrite map_length; [|lia].
+    now rewrite Nat.sub_diag.
+  Qed.
+
+  Corollary history_independent2 pre1 pre2 call post1 post2 :
+    nth_error (run_history (pre1 ++ call :: post1)) (List.length pre1)
+    = nth_error (run_history (pre2 ++ call :: post2)) (List.length pre2).
+  Proof. now rewrite !history_independent. Qed.
 
   (** ** CEL rules must be boolean; when Parse fails *)
 
